@@ -65,7 +65,7 @@ func vfCorpus() [][]byte {
 func (g *vfGen) bytes(n int) []byte {
 	b := make([]byte, n)
 	for i := range b {
-		b[i] = byte(g.rng.Intn(256))
+		b[i] = byte(g.intn(256))
 	}
 	return b
 }
@@ -74,7 +74,7 @@ func (g *vfGen) textBytes(n int) []byte {
 	const alpha = "abcdefghij klmnopqrstuvwxyz ABCDEFG 0123456789 .,;:!?-_()[]{}<>/\\\"'=+*&%$#@\t\n\r"
 	b := make([]byte, n)
 	for i := range b {
-		b[i] = alpha[g.rng.Intn(len(alpha))]
+		b[i] = alpha[g.intn(len(alpha))]
 	}
 	return b
 }
@@ -124,7 +124,7 @@ func (g *vfGen) genCorpus() {
 		}
 		lims := []uint32{0, 3072}
 		if len(c) > 2 {
-			lims = append(lims, uint32(len(c)), uint32(len(c)-1), uint32(len(c)+1), uint32(1+g.rng.Intn(len(c))))
+			lims = append(lims, uint32(len(c)), uint32(len(c)-1), uint32(len(c)+1), uint32(1+g.intn(len(c))))
 		}
 		for _, l := range lims {
 			g.emit(vfOp("walk", c, l))
@@ -192,7 +192,7 @@ func (g *vfGen) genDets() {
 				}
 			} else {
 				for i := 0; i < g.pick(12, 60); i++ {
-					cuts[g.rng.Intn(len(s)+1)] = true
+					cuts[g.intn(len(s)+1)] = true
 				}
 			}
 			for _, l := range lits {
@@ -233,7 +233,7 @@ func (g *vfGen) genDets() {
 			if len(s) > 0 && len(s) <= 600 {
 				for i := 0; i < g.pick(6, 40); i++ {
 					m := append([]byte{}, s...)
-					m[g.rng.Intn(len(m))] ^= byte(1 << uint(g.rng.Intn(8)))
+					m[g.intn(len(m))] ^= byte(1 << uint(g.intn(8)))
 					g.emit(vfOp("det", name, m, 0))
 				}
 			}
@@ -244,17 +244,17 @@ func (g *vfGen) genDets() {
 func (g *vfGen) genC07() {
 	// long texts: a single binary byte far beyond the default limit, examined with no limit or a larger one
 	for k := 0; k < g.pick(24, 400); k++ {
-		n := 3000 + g.rng.Intn(6000)
+		n := 3100 + g.intn(6000)
 		txt := g.textBytes(n)
 		for len(txt) < n {
 			txt = append(txt, g.textBytes(n-len(txt))...)
 		}
 		g.emit(vfOp("walk", txt, 0))
-		pos := 3072 + g.rng.Intn(len(txt)-3072)
+		pos := 3072 + g.intn(len(txt)-3072)
 		if k%5 == 0 {
 			pos = 3072 + k%3
 		}
-		bad := []byte{0x00, 0x01, 0x08, 0x0B, 0x0E, 0x1A, 0x1C, 0x1F, 0x07, 0x1B, 0x7F}[g.rng.Intn(11)]
+		bad := []byte{0x00, 0x01, 0x08, 0x0B, 0x0E, 0x1A, 0x1C, 0x1F, 0x07, 0x1B, 0x7F}[g.intn(11)]
 		c := append([]byte{}, txt...)
 		c[pos] = bad
 		for _, lim := range []int{0, len(c) + 1, pos + 1, pos, 8192, 3072} {
